@@ -14,6 +14,7 @@ git checkout -q -- src 2>/dev/null
 git apply --check "$out/patch.diff" || { say "patch does not apply to base"; exit 1; }
 git apply "$out/patch.diff"; git diff --name-only | xargs -r touch
 say "== build with change"; cmake --build _build -j $J >> "$log" 2>&1 || { say "BUILD FAILED with change"; exit 1; }
+[ -d _build_omp ] && { say "== build _build_omp with change"; cmake --build _build_omp -j $J >> "$log" 2>&1 || { say "BUILD (omp) FAILED with change"; exit 1; }; }
 say "== ctest with change"
 STIR_CONFIG_DIR=$wt/src/config ctest --test-dir _build -j$J --timeout 900 > $out/ctest_with.txt 2>&1
 grep -E "Test +#[0-9]+:" $out/ctest_with.txt | grep Passed | sed -E 's/.*Test +#[0-9]+: ([A-Za-z0-9_]+) .*/\1/' | sort > $out/pass_with.txt
@@ -37,6 +38,7 @@ git checkout -q -- src; git diff --quiet || { say "could not undo"; exit 2; }
 git apply -R --check "$out/patch.diff" 2>/dev/null && say "??? patch still applied"
 git apply "$out/patch.diff" && git diff --name-only > /tmp/seed/.touch_$id && git checkout -q -- src && xargs -r touch < /tmp/seed/.touch_$id
 say "== build without change"; cmake --build _build -j $J >> "$log" 2>&1 || { say "BUILD FAILED without change"; exit 1; }
+[ -d _build_omp ] && { cmake --build _build_omp -j $J >> "$log" 2>&1 || { say "BUILD (omp) FAILED without change"; exit 1; }; }
 say "== demo without change (must pass)"
 (cd $out/demo && bash ./build_and_run.sh $wt) > $out/demo_without.txt 2>&1; rc_wo=$?
 say "demo exit without change: $rc_wo"; tail -3 $out/demo_without.txt | tee -a "$log"
